@@ -143,24 +143,6 @@ impl Op {
             Op::Reinterpret => "Simd.reinterpret_cast".into(),
         }
     }
-
-    /// True if the observable result is written to the mask/bool output.
-    pub fn mask_out(self) -> bool {
-        matches!(
-            self,
-            Op::FirstNMask
-                | Op::Lt
-                | Op::Le
-                | Op::Eq
-                | Op::Ge
-                | Op::Gt
-                | Op::MaskAnd
-                | Op::MaskAny
-                | Op::MaskAll
-                | Op::MaskAllFalse
-                | Op::LoadPadFull
-        )
-    }
 }
 
 /// Inputs and outputs of one bulk evaluation. All input slices have the same
